@@ -127,6 +127,53 @@ def oracle(line: str) -> typing.Optional[str]:
     if c in ('gf32', 'gf64'):
         buf, size, off = unhex(t[1]), int(t[2]), int(t[3])
         return None if size > len(buf) else str(field(buf, size, off, int(c[2:])))
+    if c in ('pyserbe', 'pydesbe'):
+        # the classes for big-endian hosts share everything with the little-endian ones except the arrays of standard primitives,
+        # which raise NotImplementedError
+        ops = t[2].split(';') if len(t) > 2 else []
+        k = next((i for i, o in enumerate(ops) if o.split(':')[0] in ('aa', 'ua')), None)
+        base = (lambda o: oracle_pyser(int(t[1]), o)) if c == 'pyserbe' else (lambda o: oracle_pydes(unhex(t[1]), o))
+        if k is None:
+            e = base(ops)
+            return None if e is None else (canon_pydes('pydes ' + ' '.join(t[1:]), e) if c == 'pydesbe' else e)
+        return None if base(ops[:k]) is None else 'EXC@%d' % k
+    if c == 'zeb':
+        buf, out = unhex(t[1]), []
+        for i, o in enumerate(t[2].split(';') if len(t) > 2 else []):
+            f = o.split(':')
+            if f[0] == 'gb':
+                out.append(str(buf[int(f[1])] if int(f[1]) < len(buf) else 0))
+            elif f[0] == 'sl':
+                l, r = int(f[1]), int(f[2])
+                if l > r:
+                    return 'EXC@%d' % i
+                out.append(hx((buf[l:r] + bytes(r - l))[:r - l]))
+            elif f[0] == 'fk':
+                o_, n_ = int(f[1]), int(f[2])
+                if o_ + n_ > len(buf):
+                    return 'EXC@%d' % i
+                out.append(hx(buf[o_:o_ + n_]))
+            elif f[0] == 'bl':
+                out.append(str(8 * len(buf)))
+            else:
+                return None
+        return ','.join(out)
+    if c == 'xza':
+        buf, size, off = unhex(t[1]), int(t[2]), int(t[3])
+        if size > len(buf):
+            return None
+        return '0 ' + hx(put_bits(buf, off, max(0, 8 * size - off), 0))
+    if c == 'xcpa':
+        dst, dsize, doff, src, ssize, soff = unhex(t[1]), int(t[2]), int(t[3]), unhex(t[4]), int(t[5]), int(t[6])
+        n = max(0, 8 * ssize - soff)
+        if dsize > len(dst) or ssize > len(src) or doff + n > 8 * dsize:
+            return None
+        return hx(put_bits(dst, doff, n, field(src, ssize, soff, n)))
+    if c == 'xat':
+        size, off, bits = int(t[1]), int(t[2]), int(t[3])
+        return None if off + bits > M64 or size * 8 > M64 else '%d %d' % (max(0, 8 * size - off - bits), off + bits)
+    if c == 'xob':
+        return str(int(t[2]) // 8)
     if c == 'pyser':
         return oracle_pyser(int(t[1]), t[2].split(';') if len(t) > 2 else [])
     if c == 'pydes':
@@ -313,7 +360,7 @@ def oracle_pydes(buf: bytes, ops: typing.List[str]) -> typing.Optional[str]:
     for op in ops:
         t = op.split(':')
         c = t[0]
-        if c in ('ab', 'au', 'as', 'abits', 'af', 'u8', 'u16', 'u32', 'u64', 'i8', 'i16', 'i32', 'i64', 'fork') and cur % 8:
+        if c in ('ab', 'au', 'as', 'abits', 'af', 'aa', 'u8', 'u16', 'u32', 'u64', 'i8', 'i16', 'i32', 'i64', 'fork') and cur % 8:
             return None
         if c == 'sk':
             cur += int(t[1])
@@ -325,6 +372,10 @@ def oracle_pydes(buf: bytes, ops: typing.List[str]) -> typing.Optional[str]:
         elif c in ('ab', 'ub', 'af', 'uf'):
             k = int(t[1])
             out.append(hx(take(8 * k).to_bytes(k, 'little')))
+        elif c in ('aa', 'ua'):
+            w, k = int(t[1][2:]), int(t[2])
+            elems = [take(8 * w) for _ in range(k)]
+            out.append(hx(b''.join(e.to_bytes(w, 'little') for e in elems)) + (('/' + '.'.join(str(e) for e in elems)) if t[1][1] == 'u' else ''))
         elif c in ('au', 'uu'):
             if int(t[1]) < 1:
                 return None
@@ -365,7 +416,7 @@ def oracle_pydes(buf: bytes, ops: typing.List[str]) -> typing.Optional[str]:
 
 def canon_pydes(line: str, got: str) -> str:
     """floats are compared as the bytes they pack to, all NaNs as 'nan' (C14 speaks of NaN-ness only)"""
-    if not line.startswith('pydes ') or ('af:' not in line and 'uf:' not in line) or got.startswith('EXC'):
+    if not line.startswith(('pydes ', 'pydesbe ')) or ('af:' not in line and 'uf:' not in line) or got.startswith('EXC'):
         return got
     t = line.split(' ')
     ops = t[2].split(';') if len(t) > 2 else []
@@ -507,7 +558,11 @@ def nontrivial(line: str) -> typing.Optional[str]:
         return 'gb-padded' if ln % 8 else None
     if c == 'sat':
         return 'sat'
-    if c in ('pyser', 'pydes'):
+    if c == 'zeb':
+        return 'zeb'
+    if c in ('xza', 'xcpa', 'xat', 'xob'):
+        return c
+    if c in ('pyser', 'pydes', 'pyserbe', 'pydesbe'):
         ops = t[2] if len(t) > 2 else ''
         kinds = sorted({o.split(':')[0] for o in ops.split(';') if o})
         return c + ':' + '+'.join(k for k in kinds if k not in ('sk',))[:60] if kinds else None
@@ -610,6 +665,18 @@ def gen_c_cases(rng, tier: str) -> typing.List[str]:
             L.append('sf64 %s %d %d %d' % (hx(buf), size, off, rng.getrandbits(64)))
             L.append('gf16 %s %d %d' % (hx(buf), size, off))
             L.append('sf16 %s %d %d %d' % (hx(buf), size, off, rng.choice([rng.getrandbits(32), 0x3F800000 + rng.getrandbits(20), 0x477FF000, 0x7FC00000])))
+    # -- signed getters on boundary values: the field holds the minimum (10..0), the maximum (01..1), -1 and 1, at every offset 0..15
+    #    and every length 1..64, surrounded by the complement pattern
+    for off in range(16):
+        for ln in range(1, 65):
+            for v in {1 << (ln - 1), (1 << (ln - 1)) - 1, (1 << ln) - 1, 1}:
+                size = (off + ln + 7) // 8
+                for fill in (0, (1 << (8 * size)) - 1):
+                    x = (fill & ~(((1 << ln) - 1) << off)) | (v << off)
+                    buf = hx(x.to_bytes(size, 'little'))
+                    for w in (8, 16, 32, 64):
+                        if ln <= w:
+                            L.append('gi %d %s %d %d %d' % (w, buf, size, off, ln))
     # -- nunavutSaturateBufferFragmentBitLength incl. the size_t wrap-around region (pure function: safe to call with anything)
     edge = [0, 1, 7, 8, 9, 63, 64, 65, 1 << 31, (1 << 32) - 1, 1 << 32, (1 << 61) - 1, 1 << 61, (1 << 61) + 1, (1 << 63), M64 - 8, M64 - 1, M64]
     for a in edge:
@@ -673,6 +740,22 @@ def gen_cpp_cases(rng, tier: str) -> typing.List[str]:
         for b in (0, 1, 7, 8, 9, M64 - 7, M64 - 6, M64):
             L.append('xbits %d %d' % (a, b))
             L.append('xceil %d %d' % (0, b))
+            L.append('xob %d %d' % (0, b))
+    # setZeros() [no argument], copyTo(dst) [no length], at_offset, offset_bytes
+    for size in range(9):
+        for off in range(0, 8 * size + 10):
+            for kind in (1, 2):
+                L.append('xza %s %d %d' % (hx(content(rng, kind, size + off % 3)), size, off))
+            L.append('xob %d %d' % (size, off))
+            for bits in (0, 1, 7, 8, 9, 8 * size, 8 * size + 1, 100):
+                L.append('xat %d %d %d' % (size, off, bits))
+    for ssize in range(5):
+        for soff in range(8 * ssize + 10):
+            n = max(0, 8 * ssize - soff)
+            for doff in (0, 1, 5, 8, 11):
+                dsize = (doff + n + 7) // 8 + (soff % 2)
+                L.append('xcpa %s %d %d %s %d %d' % (hx(content(rng, rng.randrange(3), dsize + 1)), dsize, doff,
+                                                    hx(content(rng, 2, ssize + soff % 2)), ssize, soff))
     for ssize in range(5):
         for soff in range(8 * ssize + 10):
             for ln in range(0, 41):
@@ -762,6 +845,52 @@ def gen_py_cases(rng, tier: str) -> typing.List[str]:
             for size in ((0, 2, 5, 12) if not thorough else (0, 1, 2, 3, 5, 8, 12)):
                 buf = content(rng, rng.choice([1, 2, 2]), size)
                 L.append('pydes %s %s' % (hx(buf), ';'.join((['sk:%d' % off] if off else []) + [op, 'uu:3', 'bit', 'rem'])))
+    # arrays of standard-bit-length primitives: every dtype x count 0..5 x offsets 0..15, on buffers shorter and longer than needed
+    dtypes = ['<u1', '<u2', '<u4', '<u8', '<i1', '<i2', '<i4', '<i8', '<f2', '<f4', '<f8']
+    for off in range(16):
+        for dt in dtypes:
+            w = int(dt[2:])
+            for cnt in range(0, 6 if not thorough else 9):
+                for size in (0, w * cnt // 2, w * cnt + 3):
+                    buf = hx(content(rng, 2, size))
+                    pre = ['sk:%d' % off] if off else []
+                    L.append('pydes %s %s' % (buf, ';'.join(pre + ['ua:%s:%d' % (dt, cnt), 'uu:5', 'rem'])))
+                    if off % 8 == 0:
+                        L.append('pydes %s %s' % (buf, ';'.join(pre + ['aa:%s:%d' % (dt, cnt), 'uu:5', 'rem'])))
+                h = hx(content(rng, 2, w * cnt))
+                L.append('pyser 64 ' + ';'.join(prefix(off) + ['ua:%s:%s' % (dt, h), 'bit:1']))
+                if off % 8 == 0:
+                    L.append('pyser 64 ' + ';'.join(prefix(off) + ['aa:%s:%s' % (dt, h), 'bit:1']))
+    # the classes for big-endian hosts (instantiated directly): inherited methods behave as on the little-endian classes, the
+    # array-of-primitives methods raise NotImplementedError
+    for off in (0, 3, 8, 13):
+        for op in ('uu:%d:11' % rand_bits_value(rng, 11), 'us:-5:7', 'ub:a1b2c3', 'ubits:1011001', 'bit:1', 'pad:16', 'ua:<u2:01020304', 'ua:<f4:0000803f') + \
+                  (('au:77:9', 'ab:0102', 'u32:305419896', 'i16:-2', 'abits:110', 'aa:<u2:0102', 'aa:<i8:0102030405060708') if off % 8 == 0 else ()):
+            L.append('pyserbe 24 ' + ';'.join(prefix(off) + [op, 'uu:1:1']))
+        for op in ('uu:11', 'us:7', 'ub:3', 'ubits:9', 'bit', 'pad:16', 'rem', 'ua:<u2:2', 'ua:<f8:1') + \
+                  (('au:9', 'ab:2', 'u32', 'i16', 'abits:5', 'aa:<u4:1', 'aa:<i1:3') if off % 8 == 0 else ()):
+            for size in (0, 3, 12):
+                L.append('pydesbe %s %s' % (hx(content(rng, 2, size)), ';'.join((['sk:%d' % off] if off else []) + [op, 'uu:3'])))
+    # ZeroExtendingBuffer: get_byte, get_unsigned_slice, fork_bytes, bit_length
+    for size in range(0, 9):
+        buf = hx(content(rng, 2, size))
+        ops = ['bl'] + ['gb:%d' % i for i in range(0, size + 3)] + ['sl:%d:%d' % (l, r) for l in range(0, size + 3) for r in range(l, size + 4)]
+        L.append('zeb %s %s' % (buf, ';'.join(ops)))
+        for o in range(0, size + 2):
+            for n_ in range(0, size + 3):
+                L.append('zeb %s fk:%d:%d;bl' % (buf, o, n_))
+        L.append('zeb %s sl:%d:%d' % (buf, size + 1, size))
+    # signed fetches on boundary values (minimum 10..0, maximum 01..1, -1, 1) at every offset 0..15 and every bit length 2..64
+    for off in range(16):
+        for b in range(2, 65):
+            for v in {1 << (b - 1), (1 << (b - 1)) - 1, (1 << b) - 1, 1}:
+                size = (off + b + 7) // 8
+                for fill in (0, (1 << (8 * size)) - 1):
+                    x = (fill & ~(((1 << b) - 1) << off)) | (v << off)
+                    pre = ['sk:%d' % off] if off else []
+                    L.append('pydes %s %s' % (hx(x.to_bytes(size, 'little')), ';'.join(pre + ['us:%d' % b, 'rem'])))
+                    if off % 8 == 0:
+                        L.append('pydes %s %s' % (hx(x.to_bytes(size, 'little')), ';'.join(pre + ['as:%d' % b, 'rem'])))
     # random longer sequences
     ser_un = ['uu', 'us', 'ub', 'ubits', 'bit', 'pad', 'uf', 'sk']
     for _ in range(20000 if thorough else 2500):
@@ -1094,14 +1223,14 @@ def main(chk: core.Check, replay: typing.Optional[str] = None) -> int:
     mexe = model_exe if ok_model else None
     # float16 lines do not depend on the endianness rendering: one model run; the big pack grid goes to two builds only
     all_targets = dict(targets, **cpp_targets)
-    is_py = lambda l: l.startswith('py')
+    is_py = lambda l: l.startswith(('py', 'zeb'))
     # the Python target converts halves with struct (ties to even): property oracle only, no model in the loop
     py_f16 = {k: dict(v, model=None) for k, v in py_targets.items()}
     f16_sample = [l for i, l in enumerate(lines) if l.startswith('f16u ') or (l.startswith('f16p ') and i % (4 if chk.tier == 'thorough' else 16) == 0)]
     grid_targets = {k: v for k, v in all_targets.items() if k in ('c_any_noasserts', 'c_little_asserts_asan', 'cpp_cpp14_noasserts')} or all_targets
     cpp_noassert = {k: v for k, v in cpp_targets.items() if 'noasserts' in k}
     is_x = lambda l: l[0] == 'x'
-    is_xsub = lambda l: l.startswith('xsub')
+    is_xsub = lambda l: l.startswith(('xsub', 'xat', 'xob'))
     jobs = []
     for fam_targets, fam_lines, mfa in ((all_targets, [l for l in lines if not l.startswith('f16p ') and not is_x(l) and not is_py(l)], None),
                                         (py_targets, [l for l in lines if is_py(l)], None),
